@@ -207,12 +207,13 @@ type faultCfg struct {
 	holdMax    time.Duration // maximum extra delay for a held packet
 	corruptPPM uint32
 	zeroCRCPPM uint32
+	alignPPM   uint32 // delay a packet (by at most 3 s) so that it arrives exactly when a timer of the system expires
 	latency    time.Duration
 	jitter     time.Duration // uniform extra in [0,jitter], quantised to 100us
 }
 
 type netStats struct {
-	Sent, Delivered, Dropped, Duplicated, Held, Corrupted, ZeroCRC, PlanFaults, PartitionDrops int
+	Sent, Delivered, Dropped, Duplicated, Held, Corrupted, ZeroCRC, PlanFaults, PartitionDrops, Aligned int
 }
 
 type netEvent struct {
@@ -486,6 +487,14 @@ func (n *simNet) send(dir int, to *simConn, pkt *wirePacket) {
 		pkt.mutated = d
 		n.push(now+delay, to, d, pkt)
 		return
+	}
+	if n.faultsOn && act == planNone && cfg.alignPPM > 0 && (n.faultLimit == 0 || (n.marked && rel < n.faultLimit)) && tp.chance(cfg.alignPPM) {
+		base := n.w.t0.Add(now + delay)
+		if due, ok := n.w.sim.nextTimerDue(base, base.Add(3*time.Second)); ok {
+			delay = due.Sub(n.w.t0) - now
+			st.Aligned++
+			pkt.fate = "aligned-with-timer"
+		}
 	}
 	n.push(now+delay, to, data, pkt)
 	if h := n.swapHeld[dir]; h != nil {
